@@ -84,4 +84,30 @@ theorem supported_round_trip (lab : Nat → Nat) (S : Finset Nat) (gs : List SGa
     obtain ⟨s, hs, rfl⟩ := hg
     exact hloc s hs
 
+/-- non-vacuity: the hypotheses of `supported_round_trip` are met by a concrete problem — `rzz(θ)` between qubits 0 and 1
+(any θ) followed by a `cz` between qubits 1 and 2, both cut, three one-qubit partitions, observable `Z Z Z` -/
+example (t : ℝ) :
+    let gs := [SGate.cut "rzz" (envAngle t) 0 1, SGate.cut "cz" (envAngle 0) 1 2]
+    let O : PStr := fun n => if n < 3 then 3 else 0
+    runOps ((gs.map SGate.toC).map CGate.op) init0 O =
+      ((C01.choices ((gs.map SGate.toC).map CGate.slot)).map fun ch => choiceCoeff ch *
+        ∏ p ∈ ({0, 1, 2} : Finset Nat), runOps ((choiceOps ch).filter fun o => blockOf id o == p) init0 (restr id p O)).sum := by
+  intro gs O
+  apply supported_round_trip id {0, 1, 2} gs O
+  · intro g hg
+    simp only [gs, List.mem_cons, List.not_mem_nil, or_false] at hg
+    rcases hg with rfl | rfl
+    · exact ⟨check_rzz, sat_angle t, by decide⟩
+    · exact ⟨check_cz, sat_angle 0, by decide⟩
+  · intro g hg
+    simp only [gs, List.mem_cons, List.not_mem_nil, or_false] at hg
+    rcases hg with rfl | rfl <;> simp [SGate.toC, basisOf, cutOf, CGate.Local]
+  · intro n hn
+    have : ¬ n < 3 := by
+      intro h
+      apply hn
+      simp only [id, Finset.mem_insert, Finset.mem_singleton]
+      omega
+    simp [O, this]
+
 end CKT.C01PTM
